@@ -17,6 +17,18 @@ from .vals import (ANY, BOOL, INT, MAT, NONE, PY, REAL, STR, VEC, I, R, T, TDict
                    fresh_int, fresh_name, fresh_val, is_none, type_invariant, uf, v_any,
                    v_bool, v_int, v_none, v_py, v_real, v_ref, v_str, v_tuple)
 
+HOOKS: dict[str, list] = {k: [] for k in ('ref_iter', 'ref_subscript', 'ref_contains', 'ref_attr',
+                                              'ref_method', 'construct_special', 'exec_with')}
+
+
+def hook(kind):
+    """Register an extension handler (pyvc/libext/*.py): returns None to decline."""
+    def deco(f):
+        HOOKS[kind].append(f)
+        return f
+    return deco
+
+
 FMAX = z3.Real('FMAX')          # np.finfo(float).max  -- a positive real constant
 FMAX_AXIOMS = [FMAX > 10 ** 300]
 
@@ -24,7 +36,7 @@ FMAX_AXIOMS = [FMAX > 10 ** 300]
 PURE_LIB: dict[str, T] = {
     'numpy.nan_to_num': None,       # None -> result has the type of the first argument
     'numpy.sqrt': None, 'numpy.log': None, 'numpy.exp': None, 'numpy.abs': None,
-    'numpy.diag': None, 'numpy.cov': MAT, 'numpy.full_like': MAT, 'numpy.argmin': INT,
+    'numpy.diag': None, 'numpy.cov': MAT, 'numpy.atleast_2d': MAT, 'numpy.full_like': MAT, 'numpy.argmin': INT,
     'numpy.argmax': INT, 'numpy.array': None, 'numpy.asarray': None, 'numpy.sum': REAL,
     'numpy.isfinite': ANY, 'numpy.all': BOOL, 'numpy.any': BOOL, 'numpy.dot': MAT,
     'numpy.outer': MAT, 'numpy.zeros': MAT, 'numpy.ones': MAT, 'numpy.identity': MAT,
@@ -142,10 +154,18 @@ def iter_view(ex, st: State, v: V, node=None) -> View:
 
 
 def ref_iter(ex, st, v, node):
+    for h in HOOKS['ref_iter']:
+        r = h(ex, st, v, node)
+        if r is not None:
+            return r
     return None
 
 
 def exec_with(ex, st, node):
+    for h in HOOKS['exec_with']:
+        r = h(ex, st, node)
+        if r is not None:
+            return r
     raise Unsupported('with statement')
 
 
@@ -249,6 +269,10 @@ def subscript(ex, st: State, obj: V, sl, node) -> V:
 
 
 def ref_subscript(ex, st, obj, idx, node):
+    for h in HOOKS['ref_subscript']:
+        r = h(ex, st, obj, idx, node)
+        if r is not None:
+            return r
     return None
 
 
@@ -321,6 +345,10 @@ def contains(ex, st: State, container: V, item: V, node):
 
 
 def ref_contains(ex, st, container, item, node):
+    for h in HOOKS['ref_contains']:
+        r = h(ex, st, container, item, node)
+        if r is not None:
+            return r
     return None
 
 
@@ -1248,14 +1276,26 @@ def call_pyobj(ex, st, fv: V, args, kwargs, node):
 
 
 def ref_attr(ex, st, obj: V, name: str, node):
+    for h in HOOKS['ref_attr']:
+        r = h(ex, st, obj, name, node)
+        if r is not None:
+            return r
     return None
 
 
 def ref_method(ex, st, recv: V, name: str, args, kwargs, node):
+    for h in HOOKS['ref_method']:
+        r = h(ex, st, recv, name, args, kwargs, node)
+        if r is not None:
+            return r
     return None
 
 
 def construct_special(ex, st, ci, args, kwargs, node):
+    for h in HOOKS['construct_special']:
+        r = h(ex, st, ci, args, kwargs, node)
+        if r is not None:
+            return r
     return None
 
 
@@ -1484,3 +1524,16 @@ def str_method(ex, st, s: V, name, args, kwargs, node):
     if name == 'format':
         raise Unsupported('str.format')
     raise Unsupported(f'str.{name}')
+
+
+def load_extensions():
+    import importlib
+    import os
+    d = os.path.join(os.path.dirname(os.path.abspath(__file__)), 'libext')
+    if os.path.isdir(d):
+        for fn in sorted(os.listdir(d)):
+            if fn.endswith('.py') and not fn.startswith('_'):
+                importlib.import_module('pyvc.libext.' + fn[:-3])
+
+
+load_extensions()
